@@ -62,17 +62,31 @@ def run(ctx: Ctx) -> None:
         loop = loops[0]
         facts: dict = {"iterates": ast.unparse(loop.iter)}
         ok_iter = ast.unparse(loop.iter) == "self.func_ids"
-        skips = [f"{type(n).__name__}@{n.lineno}" for st in loop.body for n in walk_no_nested(st) if isinstance(n, (ast.Continue, ast.Break))]
-        withs = [st for st in loop.body if isinstance(st, ast.With)]
-        nested_withs = [n for st in loop.body if not isinstance(st, ast.With) for n in walk_no_nested(st) if isinstance(n, ast.With)]
+        # an "attempt" is the variant's call with rejections (and only those) caught:
+        #   with suppress(E): return CALL          or          try: return CALL / except E: pass|continue
+        attempts = []  # (statement, caught exception names, body)
+        for st in loop.body:
+            if isinstance(st, ast.With):
+                sup = [it.context_expr for it in st.items if isinstance(it.context_expr, ast.Call) and call_name(it.context_expr) == "suppress"]
+                if sup and len(sup) == len(st.items):
+                    attempts.append((st, [dotted(a) for s_ in sup for a in s_.args], st.body))
+            elif isinstance(st, ast.Try) and not st.orelse and not st.finalbody and st.handlers \
+                    and all(len(h.body) == 1 and isinstance(h.body[0], (ast.Pass, ast.Continue)) for h in st.handlers):
+                exc = []
+                for h in st.handlers:
+                    exc += [dotted(e) for e in (h.type.elts if isinstance(h.type, ast.Tuple) else [h.type])] if h.type is not None else ["BaseException(bare except)"]
+                attempts.append((st, exc, st.body))
+        attempt_stmts = {id(a[0]) for a in attempts}
+        skips = [f"{type(n).__name__}@{n.lineno}" for st in loop.body if id(st) not in attempt_stmts for n in walk_no_nested(st) if isinstance(n, (ast.Continue, ast.Break))]
+        skips += [f"{type(n).__name__}@{n.lineno}" for a in attempts for b in a[2] for n in walk_no_nested(b) if isinstance(n, (ast.Continue, ast.Break))]
+        withs = [a[0] for a in attempts]
+        nested_withs = [n for st in loop.body if id(st) not in attempt_stmts for n in walk_no_nested(st) if isinstance(n, (ast.With, ast.Try))]
         facts.update({"skips": skips, "attempt_blocks": len(withs), "conditional_attempt_blocks": len(nested_withs)})
         ok_attempt = False
-        for w in withs:
-            sup = [it.context_expr for it in w.items if isinstance(it.context_expr, ast.Call) and call_name(it.context_expr) == "suppress"]
-            exc = [dotted(a) for s in sup for a in s.args]
-            rets = [s for s in w.body if isinstance(s, ast.Return)]
+        for w, exc, body in attempts:
+            rets = [s_ for s_ in body if isinstance(s_, ast.Return)]
             facts.update({"suppresses": exc})
-            if exc == ["GuppyError"] and len(w.body) == 1 and rets and isinstance(rets[0].value, ast.Call):
+            if exc == ["GuppyError"] and len(body) == 1 and rets and isinstance(rets[0].value, ast.Call):
                 c = rets[0].value
                 recv = dotted(c.func.value) if isinstance(c.func, ast.Attribute) else ""
                 passed = [dotted(a) for a in c.args]
